@@ -107,7 +107,7 @@ def loop_own_blocks(fn, head, loops):
     return body, inner
 
 
-def iterator_verdict(fn, head, loops):
+def iterator_verdict(fn, head, loops, P=None):
     body, inner = loop_own_blocks(fn, head, loops)
     latches = [p for p in fn.preds(head) if p in body]
     dom = fn.dominators()
@@ -152,6 +152,19 @@ def iterator_verdict(fn, head, loops):
         a = t["args"][0]
         ty = a["p"]["ty"] if "p" in a else "?"
         ok, why = finite_iterator(ty)
+        if not ok and P is not None and (re.sub(r"^&(mut )?", "", ty).startswith("impl ") or re.fullmatch(r"&(mut )?[A-Z]\w*", ty.strip())):
+            # the iterator is a generic parameter: every caller must instantiate it with a finite iterator
+            sites = list(P.call_sites_of(fn.name))
+            bad = None
+            for (cf, cb, ct) in sites:
+                gs = [g for g in (ct.get("gargs") or []) if isinstance(g, str) and not g.startswith("'") and not g.startswith("closure:")]
+                if not any(finite_iterator(g)[0] for g in gs):
+                    bad = "call at %s instantiates the iterator parameter with %s" % (cf.loc(cb), gs)
+            if sites and bad is None:
+                ok, why = True, "finite"
+                ty = "%s (generic; all %d call sites pass finite std iterators)" % (ty, len(sites))
+            else:
+                why = bad or "generic iterator parameter and no call site found"
         if not ok:
             return None, why
         # the iterator local behind the &mut temp must not be re-assigned inside the loop
@@ -300,7 +313,7 @@ def analyse_loops(A, P, fn_names):
             continue
         loops = fn.loops()
         for head in sorted(loops):
-            kind, detail = iterator_verdict(fn, head, loops)
+            kind, detail = iterator_verdict(fn, head, loops, P)
             if kind:
                 out.append(LoopVerdict(fn, head, kind, detail))
                 continue
